@@ -146,6 +146,20 @@ func c02Exec(c *core.Ctx, in c02Case) {
 			fail("encode|"+in.Msg+"|second-encoding-differs", fmt.Sprintf("via %s: encoding the same message a second time emits %x, first time %x", ent, clip(again), clip(want)))
 			return
 		}
+		if entry != "plain" {
+			// into a buffer with spare capacity, empty and behind a 7-octet security header (re-used and pre-sized buffers)
+			for _, sp := range []int{64, 4096} {
+				for _, pre := range [][]byte{nil, {0x7E, 0x02, 1, 2, 3, 4, 5}} {
+					encodeSpare = sp
+					o2, e2, p2 := implEncode(m, entry, r, pre)
+					encodeSpare = 0
+					if p2 != nil || e2 != nil || len(o2) < len(pre) || !bytes.Equal(o2[:len(pre)], pre) || !bytes.Equal(o2[len(pre):], want) {
+						fail("encode|"+in.Msg+"|depends-on-spare-capacity", fmt.Sprintf("via %s into a buffer with %d octets and %d spare: encoder emits %x (%v %v), table-driven encoding is %x", ent, len(pre), sp, clip(o2), e2, p2, clip(want)))
+						return
+					}
+				}
+			}
+		}
 		d := implDecode(m, entry, append([]byte{}, out...))
 		if d.pi != nil || d.err != nil {
 			fail("decode|"+in.Msg+"|rejects-own-encoding", fmt.Sprintf("via %s: decoding the encoder's output fails: %v %v", ent, d.err, d.pi))
@@ -432,6 +446,7 @@ func c02Run(c *core.Ctx) {
 				if isIdentitySlot(s.Name) {
 					extra = append(extra, identityCorpus()...)
 				}
+				extra = append(extra, typedCorpus(s.Name)...)
 				for _, raw := range extra {
 					b := []byte(raw)
 					if len(b) > s.Max || len(b) < s.Min || len(b) == 0 {
